@@ -15,6 +15,10 @@ Numerical statement checks on the implementation (support, and the falsifier):
              Position; v + C(w x l) - m; C^T v - m)
   layout     a Pva Series with rates first / permuted labels / unrelated extra entries gives the same z, H, R as
              the canonical order (all statements above also run on such Series)
+  history    one Measurement object queried while its public `.data` is edited (row dropped / corrected in place /
+             replaced / appended): None exactly at the epochs absent from the CURRENT data, residual against
+             the CURRENT value
+  flags      with_altitude passed as bool, numpy.bool_ and 0/1 in every statement (same mode, same shapes)
   noise      R = sd^2 I with the shape of z;   absent   compute_matrices(t not in data) is None
   sim        generate_*_measurements with zero noise at the true state: z ~ 0; injected error e: z ~ -e; incl.
              trajectories at / beyond the +-180 deg meridian (lon > 180 after crossing, 0..360 convention, noise
@@ -45,13 +49,24 @@ def rand_pva(rng):
             rng.uniform(-179.9, 179.9), pitch, rng.uniform(-179.9, 179.9)]
 
 
+FLAG_FORMS = ('bool', 'numpy', 'int')
+
+
+def flag(p):
+    """with_altitude as the caller may legitimately pass it: a Python bool, a numpy.bool_ (e.g. the result of a
+    comparison or an element of a boolean array) or a 0/1 integer -- all mean the same mode."""
+    wa = bool(p['with_altitude'])
+    form = p.get('flag_form', 'bool')
+    return {'bool': wa, 'numpy': np.bool_(wa), 'int': int(wa)}[form]
+
+
 def build(p, near=False):
     from pyins import measurements, transform
     from pyins.error_model import InsErrorModel
     pva9 = pd.Series(p['pva'], index=COLS, dtype=float)
     rates = pd.Series(p['rates'], index=RATES, dtype=float) if p['rates'] is not None else None
     l = np.array(p['lever'], dtype=float) if p['lever'] is not None else None
-    em = InsErrorModel(p['with_altitude'])
+    em = InsErrorModel(flag(p))
     m = np.array(p['meas_near'] if (near and p.get('meas_near') is not None) else p['meas'], dtype=float)
     if p['cls'] == 'Position':
         meas = measurements.Position(pd.DataFrame([m], index=[T0], columns=['lat', 'lon', 'alt']), p['sd'], l)
@@ -193,8 +208,54 @@ def eval_case(kind, p):
         z = np.asarray(ret[0], dtype=float)
         err = float(np.abs(z).max())
         return err <= tol, dict(z=z.tolist(), tol=tol, antenna_measurement=q['meas'])
+    if kind == 'history':
+        # "at a time present in its data": present in the CURRENT public attribute `.data`.  The object is used
+        # across calls while rows are dropped / corrected / appended; after every edit each epoch is queried.
+        pva9, rates, l, em, meas = build(dict(p, meas=p['rows'][0]))
+        cols = {'Position': ['lat', 'lon', 'alt'], 'NedVelocity': ['VN', 'VE', 'VD'],
+                'BodyVelocity': ['VX', 'VY', 'VZ']}[p['cls']]
+        model = {}
+        frame = pd.DataFrame([p['rows'][i] for i in range(len(p['times0']))], index=p['times0'], columns=cols)
+        for t, row in zip(p['times0'], p['rows']):
+            model[t] = row
+        if p['cls'] == 'Position':
+            meas = type(meas)(frame, p['sd'], l)
+        elif p['cls'] == 'NedVelocity':
+            meas = type(meas)(frame, p['sd'], l)
+        else:
+            meas = type(meas)(frame, p['sd'])
+        queries = sorted(set(p['times0']) | {op[1] for op in p['ops']} | set(ABSENT))
+        log = []
+        for step, op in enumerate([('start', None)] + [tuple(o) for o in p['ops']]):
+            if op[0] == 'drop':
+                meas.data = meas.data.drop(index=op[1])
+                model.pop(op[1])
+            elif op[0] == 'modify':              # in place, through the public attribute
+                meas.data.loc[op[1], cols] = op[2]
+                model[op[1]] = op[2]
+            elif op[0] == 'replace':             # a corrected copy assigned to the attribute
+                d = meas.data.copy()
+                d.loc[op[1], cols] = op[2]
+                meas.data = d
+                model[op[1]] = op[2]
+            elif op[0] == 'append':
+                meas.data = pd.concat([meas.data, pd.DataFrame([op[2]], index=[op[1]], columns=cols)]).sort_index()
+                model[op[1]] = op[2]
+            for t in queries:
+                ret = meas.compute_matrices(t, full(pva9, rates, p), em)
+                if (ret is None) != (t not in model):
+                    return False, dict(step=step, op=list(op), time=t, present_in_current_data=t in model,
+                                       returned_none=ret is None)
+                if ret is not None:
+                    want, tol = predicted(dict(p, meas=model[t]))
+                    z = np.asarray(ret[0], dtype=float)
+                    if z.shape != want.shape or float(np.abs(z - want).max()) > tol:
+                        return False, dict(step=step, op=list(op), time=t, z=z.tolist(), oracle=want.tolist(),
+                                           current_value=model[t])
+            log.append(op[0])
+        return True, dict(steps=log)
     if kind == 'sim':
-        em = InsErrorModel(p['with_altitude'])
+        em = InsErrorModel(flag(p))
         rows = np.array(p['traj'], dtype=float)
         times = [T0 + 0.25 * i for i in range(len(rows))]
         traj = pd.DataFrame(rows, index=times, columns=COLS)
@@ -246,7 +307,8 @@ def gen_cases(rng, n):
             l = [0.0 if z else v for v, z in zip(l, zp)]
         w = [rng.uniform(-1, 1) for _ in range(3)] if rates else None
         sd = rng.choice([0.5, 2.0, rng.uniform(0.1, 5)])
-        p = dict(cls=cls, with_altitude=wa, pva=pva, lever=l, rates=w, sd=sd)
+        p = dict(cls=cls, with_altitude=wa, pva=pva, lever=l, rates=w, sd=sd,
+                 flag_form=FLAG_FORMS[(i // len(combos) + i) % 3])
         # measured value close to the prediction (the linearisation point of an EKF update)
         from pyins import transform
         d = [rng.uniform(-5, 5) for _ in range(3)]
@@ -295,6 +357,41 @@ def numeric_statements(r, n, nsim, seed_shift=6):
             if not ok:
                 fails.append((f"C06 {kind} fails for {p['cls']} on the implementation",
                               dict(kind=kind, params=p, detail=det)))
+    # histories: the same Measurement object queried while its public `.data` is edited
+    for i in range(max(6, n // 8)):
+        base = cases[(7 * i) % len(cases)]
+        q = {k: base[k] for k in ('cls', 'with_altitude', 'pva', 'lever', 'rates', 'sd', 'flag_form', 'layout')}
+        def value():
+            d = [rng.uniform(-5, 5) for _ in range(3)]
+            if q['cls'] == 'Position':
+                from pyins import transform
+                return [float(v) for v in transform.perturb_lla(np.array(q['pva'][:3]), np.array(d))]
+            return [q['pva'][3] + d[0], q['pva'][4] + d[1], q['pva'][5] + d[2]]
+        times0 = [T0 + 0.25 * k for k in range(4)]
+        q['times0'] = times0
+        q['rows'] = [value() for _ in times0]
+        ops = [('modify' if i % 2 else 'replace', times0[1], value()), ('drop', times0[2]),
+               ('append', T0 + 1.5, value()), ('drop', times0[0]), ('append', times0[2], value())]
+        rng.shuffle(ops)
+        # keep the history consistent: a dropped epoch must be present, an appended one absent
+        present = set(times0)
+        good = []
+        for op in ops:
+            if op[0] == 'drop' and op[1] in present:
+                present.discard(op[1]); good.append(op)
+            elif op[0] == 'append' and op[1] not in present:
+                present.add(op[1]); good.append(op)
+            elif op[0] in ('modify', 'replace') and op[1] in present:
+                good.append(op)
+        q['ops'] = [list(o) for o in good]
+        r.case(('history', q['cls'], q['with_altitude'], i), sample=dict(q))
+        try:
+            ok, det = eval_case('history', q)
+        except Exception as ex:
+            ok, det = False, dict(exception=repr(ex))
+        if not ok:
+            fails.append((f"C06 history: {q['cls']} does not follow its current .data on the implementation",
+                          dict(kind='history', params=q, detail=det)))
     for i in range(nsim):
         wa = (i % 2 == 0)
         rows = [rand_pva(rng) for _ in range(4)]
@@ -316,7 +413,7 @@ def numeric_statements(r, n, nsim, seed_shift=6):
                 rows[1][1] = -180.0 - east_deg(rows[1], rng.uniform(0.5, 50.0))
                 rows[2][1] = rng.uniform(-359.0, -181.0)
                 rows[3][1] = -180.0
-        p = dict(with_altitude=wa, traj=rows, err=err)
+        p = dict(with_altitude=wa, traj=rows, err=err, flag_form=FLAG_FORMS[i % 3])
         r.case(('sim', wa) + tuple(round(v, 6) for v in rows[0]))
         try:
             ok, det = eval_case('sim', p)
